@@ -13,10 +13,12 @@ oracle : helpers vs independent formulas / numpy.linalg on random integer tensor
          bilinear forms, and "linear integrand == ordinary assembly".
 """
 import itertools
+import json
+import os
 
 import numpy as np
 
-from .. import c20_nl, c20_nlo, c20_tr
+from .. import c20_nl, c20_nlo, c20_ops, c20_tr
 from ..core import TranslateError, clist, cnat, np_seed
 
 # ------------------------------------------------------------------------------------------- real calls
@@ -138,7 +140,7 @@ def q_of(x):
 
 def helper_correspondence(ctx, scen_by_variant, meta, rng):
     names, cases = [], []
-    per = ctx.n(7, 30)
+    per = ctx.n(5, 30)
     for variant, scen in scen_by_variant:
         for name, func, sn, spec in scen:
             if name not in meta:
@@ -148,7 +150,10 @@ def helper_correspondence(ctx, scen_by_variant, meta, rng):
             for _ in range(per):
                 n = pick_n(sn, func, rng)
                 nt = 2 if needs_two_trailing(func, spec) else int(rng.integers(0, 4))
-                trail = tuple(int(x) for x in rng.integers(1, 4, size=nt))
+                if ctx.quick():          # a fixed shape per number of trailing axes: jax compiles each primitive once per shape
+                    trail = {0: (), 1: (3,), 2: (2, 3), 3: (2, 2, 2)}[nt]
+                else:
+                    trail = tuple(int(x) for x in rng.integers(1, 4, size=nt))
                 if name.endswith('div_1d'):
                     n = 1
                     trail = (max(trail[0], 2),) + trail[1:]
@@ -238,11 +243,61 @@ def _oracle_table():
     return T
 
 
+def operator_oracle(ctx, rng):
+    """the arithmetic special methods of JaxDiscreteField vs the NumPy operator on the value arrays (exact: dyadic inputs,
+    divisors are powers of two)"""
+    import jax.numpy as jnp
+    from skfem.autodiff import JaxDiscreteField
+    import operator as op
+    table = [('__add__', op.add, False), ('__radd__', op.add, True), ('__sub__', op.sub, False), ('__rsub__', op.sub, True),
+             ('__mul__', op.mul, False), ('__rmul__', op.mul, True), ('__truediv__', op.truediv, False), ('__rtruediv__', op.truediv, True)]
+    for name, fn, reflected in table:
+        if not hasattr(JaxDiscreteField, name):
+            continue
+        for kind in ('float', 'array', 'field'):
+            if reflected and kind == 'field':
+                continue                       # field (op) field dispatches to the non-reflected method
+            for shape in ctx.n(((2, 3),), ((2, 3), (2, 2, 3), (4,))):
+                a = rng.integers(-6, 7, size=shape) / 2.
+                b = 2. ** rng.integers(-2, 3, size=shape) * rng.choice([-1., 1.], size=shape)
+                if reflected and fn is op.truediv:
+                    a, b = b, a               # the field is the divisor: keep it a power of two
+                u = JaxDiscreteField(value=jnp.asarray(a))
+                other_np = 4. if kind == 'float' else b
+                other = 4. if kind == 'float' else (jnp.asarray(b) if kind == 'array' else JaxDiscreteField(value=jnp.asarray(b)))
+                exp = fn(other_np, a) if reflected else fn(a, other_np)
+                try:
+                    got = np.asarray(fn(other, u) if reflected else fn(u, other), dtype=float)
+                except Exception as e:  # noqa: BLE001
+                    ctx.fail(f'jdf-operator:{name}:{kind}', f'JaxDiscreteField.{name} with a {kind} operand raises {type(e).__name__}: {e}',
+                             {'method': name, 'other': kind, 'field_value': a.tolist()})
+                    continue
+                ctx.count(('jdf-op', name, kind, a.tolist(), np.asarray(other_np).tolist()))
+                ctx.hist('field_operator', name)
+                if got.shape != exp.shape or not np.array_equal(got, exp):
+                    ctx.fail(f'jdf-operator:{name}:{kind}', f'JaxDiscreteField.{name} ({"other (op) field" if reflected else "field (op) other"}, '
+                             f'other = {kind}) is not the NumPy operator on the values',
+                             {'method': name, 'other': kind, 'field_value': a.tolist(), 'other_value': np.asarray(other_np).tolist(),
+                              'got': got.tolist(), 'expected': np.asarray(exp).tolist()})
+    a = rng.integers(-6, 7, size=(2, 3)) / 2.
+    u = JaxDiscreteField(value=jnp.asarray(a))
+    for k in (2, 3):
+        got = np.asarray(u ** k, dtype=float)
+        ctx.count(('jdf-pow', k, a.tolist()))
+        if not np.array_equal(got, a ** k):
+            ctx.fail(f'jdf-operator:__pow__:{k}', 'JaxDiscreteField.__pow__ is not the power of the values',
+                     {'exponent': k, 'field_value': a.tolist(), 'got': got.tolist(), 'expected': (a ** k).tolist()})
+    if hasattr(JaxDiscreteField, '__neg__'):
+        if not np.array_equal(np.asarray(-u, dtype=float), -a):
+            ctx.fail('jdf-operator:__neg__', 'JaxDiscreteField.__neg__ is not the negated values', {'field_value': a.tolist()})
+
+
 def helper_oracle(ctx, rng):
     H, JH = _mods()
     import jax.numpy as jnp
-    reps = ctx.n(6, 40)
+    reps = ctx.n(4, 40)
     trails = [(), (3,), (2, 3), (2, 2, 2)]
+    operator_oracle(ctx, rng)
     maxdisc = 0.0
     for name, func, variants, builders, expected, ns in _oracle_table():
         for n in ns:
@@ -495,8 +550,24 @@ def run(ctx):
     except TranslateError as e:
         ctx.broke('translator', 'c20_nl.translate(autodiff/__init__.py: NonlinearForm._assemble)', e)
         nl_ok = False
+    ops_present = []
+    try:
+        txt, ops_present = c20_ops.generate()
+        ctx.write_gen('C20Gen_ops', txt)
+        ops_ok = True
+    except TranslateError as e:
+        ctx.broke('translator', 'c20_ops.generate(autodiff/__init__.py: JaxDiscreteField special methods)', e)
+        ops_ok = False
+    # the failing-input searches do not depend on the Coq build: they run in a child process meanwhile (vlib/c20_child.py)
+    import subprocess
+    import sys
+    out_json = os.path.join(ctx.bdir, 'oracle_result.json')
+    child = subprocess.Popen([sys.executable, '-m', 'vlib.c20_child', str(ctx.seed), ctx.tier, out_json],
+                             cwd=os.path.dirname(os.path.dirname(os.path.dirname(os.path.abspath(__file__)))),
+                             env=dict(os.environ, PYTHONPATH=os.environ.get('PYTHONPATH', '')), stdout=subprocess.PIPE, stderr=subprocess.STDOUT, text=True)
     # 2. build + prove
-    gens = (['gen/C20Gen_np.v', 'gen/C20Gen_jx.v', 'gen/C20Agree.v'] if gen_ok else []) + (['gen/C20Gen_nl.v'] if nl_ok else [])
+    gens = ((['gen/C20Gen_np.v', 'gen/C20Gen_jx.v', 'gen/C20Agree.v'] if gen_ok else []) + (['gen/C20Gen_nl.v'] if nl_ok else [])
+            + (['gen/C20Gen_ops.v'] if ops_ok else []))
     dyn = ctx.copy_dyn()
     if not gen_ok:
         dyn = [d for d in dyn if 'Nonlin' in d]
@@ -504,8 +575,8 @@ def run(ctx):
         dyn = [d for d in dyn if 'Nonlin' not in d]
     from .c10 import compile_parallel
     first = [g for g in gens if g != 'gen/C20Agree.v']
-    if compile_parallel(ctx, first):                      # independent generated files, then the files that import them
-        compile_parallel(ctx, [g for g in gens if g == 'gen/C20Agree.v'] + dyn)
+    compile_parallel(ctx, first)                          # independent generated files, then the files that import them
+    compile_parallel(ctx, [g for g in gens if g == 'gen/C20Agree.v'] + dyn)
     ctx.prove()
     # 3. correspondence of the generated terms with the real helpers
     if gen_ok:
@@ -514,12 +585,30 @@ def run(ctx):
             raising_scenarios(ctx, v, scen, raises[v], rng)
     if nl_ok:
         nonlinear_correspondence(ctx, rng)
-    # 4. oracles
-    helper_oracle(ctx, rng)
-    import warnings
-    with warnings.catch_warnings():
-        warnings.simplefilter('ignore', DeprecationWarning)
-        c20_nlo.run(ctx, rng)
+    # 4. oracles: started before the Coq work (own random stream), collected here
+    try:
+        child_out, _ = child.communicate(timeout=ctx.n(600, 3000))
+    except subprocess.TimeoutExpired:
+        child.kill()
+        child_out = 'timeout'
+    if child.returncode != 0 or not os.path.exists(out_json):
+        ctx.broke('harness', 'oracle child process', (child_out or '')[-1500:])
+        return
+    res = json.load(open(out_json))
+    if res['error']:
+        ctx.broke('harness', 'oracle child process', res['error'])
+    for f in res['failures']:
+        ctx.fail(f['key'], f['what'], f['data'])
+    ctx.cov['evaluations'] += res['evaluations']
+    ctx._distinct.update(res['distinct'])
+    for k, d in res['hists'].items():
+        for v, c in d.items():
+            hd = ctx.extra.setdefault('distribution', {}).setdefault(k, {})
+            hd[v] = hd.get(v, 0) + c
+    ctx.extra.update(res['extra'])
+    for smp in res['samples']:
+        ctx.sample(smp)
+    ctx.extra['oracle_child_seconds'] = round(res['seconds'], 1)
 
 
 def replay(ctx, data):
